@@ -158,6 +158,18 @@ Theorem C20_error_response_shape :
 Proof. exact error_response_shape. Qed.
 Print Assumptions C20_error_response_shape.
 
+(* One application object answering several requests: the response to a request
+   is a function of that request alone -- whatever was answered before (e.g. the
+   same URL as an HTML page) or comes after does not change it.  In the model
+   this holds by construction (respond_seq keeps no state); the correspondence
+   check runs request sequences on one Ombott object against it. *)
+Theorem C20_response_function_of_request :
+  forall (isp : N -> bool) (before after : list request) (q : request),
+    length (respond_seq isp (before ++ q :: after)) = length (before ++ q :: after)
+    /\ nth_error (respond_seq isp (before ++ q :: after)) (length before) = Some (respond_req isp q).
+Proof. exact response_function_of_request. Qed.
+Print Assumptions C20_response_function_of_request.
+
 (* OBSERVATION, NOT A VIOLATION OF C20 (C20 asks of the JSON body only that it be
    valid JSON): default_error_handler's JSON branch has no debug switch, so
    unlike the HTML page (C20_no_debug_leak) the JSON body carries repr(exception)
